@@ -241,8 +241,23 @@ def chunk_invariants(ctx):
     cfg = CFG(ug.node)
     pre = [x for x in cfg.stmt_nodes() if x.kind == "stmt" and norm(x.ast) == "self.chunk = char + self.chunk"]
     back = [x for x in cfg.stmt_nodes() if x.kind == "stmt" and norm(x.ast) == "self.chunkOffset -= 1"]
-    at0 = lambda x, lab: x.kind == "test" and norm(x.ast) == "self.chunkOffset == 0" and lab is True  # noqa: E731
-    not0 = lambda x, lab: x.kind == "test" and norm(x.ast) == "self.chunkOffset == 0" and lab is False  # noqa: E731
+    def offset_test(x):
+        """truth value of a test of the offset alone at offset 0 and at a later offset, or None"""
+        if x.kind != "test" or "self.chunkOffset" not in norm(x.ast):
+            return None
+        vals = []
+        for off in (0, 3):
+            saved = ctx.ce.hook
+            ctx.ce.hook = lambda node, local, off=off: off if norm(node) == "self.chunkOffset" else NotImplemented
+            try:
+                vals.append(bool(ctx.ce.eval(x.ast, ug.module, {})))
+            except Exception:       # noqa: BLE001 -- depends on more than the offset
+                return None
+            finally:
+                ctx.ce.hook = saved
+        return tuple(vals)
+    at0 = lambda x, lab: offset_test(x) in ((True, False), (False, True)) and offset_test(x)[0] is lab  # noqa: E731
+    not0 = lambda x, lab: offset_test(x) in ((True, False), (False, True)) and offset_test(x)[1] is lab  # noqa: E731
     ok = len(pre) == 1 and len(back) == 1 and cfg.dominated_by(pre[0], at0) and cfg.dominated_by(back[0], not0)
     r.idiom("C05.5", ok, "unget-arms", ug.where, "unget() does not prepend at a chunk start and step back otherwise",
             wrong=[(len(pre) == 1 and len(back) == 1 and not ok, None)])
@@ -454,10 +469,18 @@ def delivery_rules(ctx):
         out = []
         sizes = {norm(c.args[0]) for c in walk_no_nested(fn) if isinstance(c, ast.Call) and isinstance(c.func, ast.Attribute)
                  and c.func.attr == "read" and c.args and isinstance(c.args[0], ast.Name)}
+        # the top-up idiom `while len(data) < size: more = read(..); if not more: break; data += more` reads on *because* a read
+        # may be short and ends at an empty read: its loop condition is not a short-read-means-end test
+        topup = set()
+        for w in walk_no_nested(fn):
+            if isinstance(w, ast.While) and any(isinstance(x, ast.Call) and isinstance(x.func, ast.Attribute) and x.func.attr == "read" for b in w.body for x in ast.walk(b)) \
+                    and any(isinstance(b, ast.If) and isinstance(b.test, ast.UnaryOp) and isinstance(b.test.op, ast.Not) and any(isinstance(y, ast.Break) for y in b.body)
+                            for b in w.body):
+                topup |= {id(x) for x in ast.walk(w.test)}
         for c in walk_no_nested(fn):
             if isinstance(c, ast.Compare) and len(c.ops) == 1 and isinstance(c.ops[0], (ast.Lt, ast.LtE, ast.NotEq, ast.Gt, ast.GtE, ast.Eq)):
                 sides = [norm(c.left), norm(c.comparators[0])]
-                if any(s.startswith("len(") for s in sides) and any(s in sizes for s in sides):
+                if any(s.startswith("len(") for s in sides) and any(s in sizes for s in sides) and id(c) not in topup:
                     out.append(c)
         return out
     for f in mod.all_functions:
